@@ -269,7 +269,7 @@ impl<'a> Rewriter<'a> {
                     p.used = true;
                     edits.push(Edit { range: close_start..close_start, text: format!("\nproof {{\n{}}}\n", p.text), prio: 5 });
                 }
-                "before" | "after" | "wrap" => {
+                "before" | "after" | "wrap" | "rawbefore" => {
                     let want = norm(&p.anchor);
                     let cands: Vec<&(Range<usize>, String)> = stmts.iter().filter(|(_, t)| t.starts_with(&want)).collect();
                     if cands.is_empty() {
@@ -291,6 +291,7 @@ impl<'a> Rewriter<'a> {
                     let _ = src;
                     match p.mode.as_str() {
                         "before" => edits.push(Edit { range: pick.0.start..pick.0.start, text: format!("proof {{\n{}}}\n", p.text), prio: -5 }),
+                        "rawbefore" => edits.push(Edit { range: pick.0.start..pick.0.start, text: format!("{}\n", p.text), prio: -5 }),
                         "after" => edits.push(Edit { range: pick.0.end..pick.0.end, text: format!("\nproof {{\n{}}}\n", p.text), prio: 5 }),
                         _ => {
                             edits.push(Edit { range: pick.0.start..pick.0.start, text: format!("{{ proof {{\n{}}}\n", p.text), prio: -6 });
@@ -592,6 +593,22 @@ impl<'ast, 'r, 'a> Visit<'ast> for Collector<'r, 'a> {
                 let v = self.render(&m.args[0]);
                 self.rw.log.push("R10 .entry(k).insert_entry(v) -> __map_insert_entry".to_string());
                 self.edits.push(Edit { range: rng(e), text: format!("__map_insert_entry(&mut {map}, {k}, {v})"), prio: 0 });
+            }
+            // R12: M.entry(K).or_default().insert(V)  ->  __entry_or_default_insert(M, K, V)
+            // side condition: M is a `&mut` binding (implicit reborrow; rustc rejects anything else)
+            syn::Expr::MethodCall(m)
+                if m.method == "insert"
+                    && self.rw.on("R12")
+                    && m.args.len() == 1
+                    && is_method(&m.receiver, "or_default").map_or(false, |od| od.args.is_empty() && is_method(&od.receiver, "entry").map_or(false, |en| en.args.len() == 1)) =>
+            {
+                let od = is_method(&m.receiver, "or_default").unwrap();
+                let en = is_method(&od.receiver, "entry").unwrap();
+                let map = self.render(&en.receiver);
+                let k = self.render(&en.args[0]);
+                let v = self.render(&m.args[0]);
+                self.rw.log.push("R12 .entry(k).or_default().insert(v) -> __entry_or_default_insert".to_string());
+                self.edits.push(Edit { range: rng(e), text: format!("__entry_or_default_insert({map}, {k}, {v})"), prio: 0 });
             }
             // R5: E.replace('c', S)
             syn::Expr::MethodCall(m) if m.method == "replace" && self.rw.on("R5") && m.args.len() == 2 => {
